@@ -25,5 +25,15 @@ tail += (f"Summary of the last matrix run (`tools/seedmatrix.py`, results in eac
 tail += (f"**Benign corpus** (`/verif/benign/<id>/patch.diff`, written by sub-agents asked for behaviour-preserving refactorings with an equivalence "
          f"digest on the pristine and the patched tree; `tools/benignmatrix.py`): {len(res)} patches with a recorded result, "
          f"{len(res) - len(loud)} silent" + (f"; not silent: " + "; ".join(f"{b}: {json.dumps(v)[:160]}" for b, v in sorted(loud.items())) if loud else "") + ".\n")
+if "C12j" in none:
+    tail += """
+**The one seed no check reports (C12j).** `out["hexagonal_axis"] = axis * np.sign(axis[2])`: for a symmetry axis lying exactly in the
+x-y plane the zero vector is returned. The C12 rules read the reported axis back as a three-way selection over candidate frames
+(`selection`) and prove unit length of the frame columns (`unit-axis`), not of the reported vector; on the seeded tree the read-back fails
+(inconclusive) and the interpretation of the sign-normalised expressions does not finish within the watchdog (exit 2, never a report). What
+would decide it is a rule on the output itself - sum_r axis_r^2 == 1 - evaluated also where a denominator of the extracted form vanishes
+(`np.sign(z)` is modelled as z/|z|, undefined at z = 0 where the reference is defined). That "undefined where the reference is defined"
+world is not built; it is the natural next step for the engine and would also serve C03's division rules.
+"""
 open(p, "w").write(s[:i] + tail)
 print(f"seeds {len(seeds)} (target {len(hit)}, other {len(other)}, none {len(none)}); benign {len(res)} ({len(loud)} loud)")
